@@ -104,6 +104,9 @@ fn parse_args() -> Result<Args, String> {
 }
 
 fn harness_error(msg: &str) -> ! {
+    // best-effort removal of this process's scratch directory (exit skips destructors)
+    let root = env_path("VERIF_SIMDISK", "/verif/sim/target/simdisk").join(format!("p{}", std::process::id()));
+    let _ = std::fs::remove_dir_all(root);
     println!("HARNESS-ERROR {msg}");
     eprintln!("HARNESS-ERROR {msg}");
     std::process::exit(2);
@@ -153,6 +156,17 @@ struct RealDirs {
 
 fn make_real_dirs(pool: &[Image]) -> RealDirs {
     let base = env_path("VERIF_SIMDISK", "/verif/sim/target/simdisk");
+    // Remove what processes that no longer exist left behind (exit() skips destructors).
+    if let Ok(rd) = std::fs::read_dir(&base) {
+        for e in rd.flatten() {
+            let name = e.file_name().to_string_lossy().to_string();
+            if let Some(pid) = name.strip_prefix('p').and_then(|p| p.parse::<u32>().ok()) {
+                if !Path::new(&format!("/proc/{pid}")).exists() {
+                    let _ = std::fs::remove_dir_all(e.path());
+                }
+            }
+        }
+    }
     let root = base.join(format!("p{}", std::process::id()));
     let pool_dir = root.join("pool");
     let _ = std::fs::remove_dir_all(&root);
@@ -268,6 +282,51 @@ fn extract(sc: &Scenario, pool: &[Image]) -> (Scenario, Vec<Image>) {
     (s, used.iter().map(|&i| pool[i].clone()).collect())
 }
 
+/// The fault-free sweep of pool image `idx` as a scenario: load it from a healthy disk, then
+/// query (every whole second within +-40 s of every entry when `full`).
+fn sweep_scenario(idx: usize, full: bool) -> Scenario {
+    use scenario::{Op, Plan};
+    Scenario {
+        seed: 0xF00D_0000 + idx as u64,
+        stratum: "fault-free sweep".into(),
+        n_clients: 1,
+        initial: idx,
+        ops: vec![
+            Op::Load {
+                client: 0,
+                plan: Plan::default(),
+                must_succeed: true,
+            },
+            Op::Query {
+                client: 0,
+                probe_seed: idx as u64,
+                full,
+            },
+        ],
+    }
+}
+
+/// Executes a replay record in a fresh process and returns the violation it reports, if any.
+fn run_isolated(rf: &ReplayFile, tmp: &Path) -> Option<Violation> {
+    std::fs::write(tmp, serde_json::to_string(rf).unwrap())
+        .unwrap_or_else(|e| harness_error(&format!("write {}: {e}", tmp.display())));
+    let exe = std::env::current_exe().unwrap_or_else(|e| harness_error(&format!("current_exe: {e}")));
+    let out = std::process::Command::new(exe)
+        .arg("replay")
+        .arg(tmp)
+        .output()
+        .unwrap_or_else(|e| harness_error(&format!("spawn replay: {e}")));
+    let text = String::from_utf8_lossy(&out.stdout);
+    match out.status.code() {
+        Some(0) => None,
+        Some(1) => text
+            .lines()
+            .find_map(|l| l.strip_prefix("RESULT "))
+            .and_then(|j| serde_json::from_str::<Violation>(j).ok()),
+        other => harness_error(&format!("isolated replay ended with {other:?}: {text}")),
+    }
+}
+
 fn cmd_replay(args: &Args) -> i32 {
     let path = args.replay.clone().unwrap_or_else(|| harness_error("replay needs a file"));
     let text = std::fs::read_to_string(&path)
@@ -321,6 +380,7 @@ fn cmd_replay(args: &Args) -> i32 {
     match r.violation {
         Some(v) => {
             println!("reproduced: {} at op {}: {}", v.oracle, v.op_index, v.message);
+            println!("RESULT {}", serde_json::to_string(&v).unwrap());
             if v.oracle != rf.oracle {
                 println!("note: recorded oracle was {}", rf.oracle);
             }
@@ -408,6 +468,7 @@ fn cmd_run(args: &Args) -> i32 {
         let dirs = make_real_dirs(&ctx.images);
 
         // Calibration and fault-free sweeps on this thread.
+        let mut sweep_found: Vec<(u64, Violation)> = Vec::new();
         {
             let mut sim = new_sim(&ctx, &dirs, "main");
             if let Err(m) = sim.calibrate() {
@@ -427,22 +488,24 @@ fn cmd_run(args: &Args) -> i32 {
             }
             let mut seen_tables: Vec<Vec<refdata::Entry>> = Vec::new();
             for idx in 0..ctx.images.len() {
-                // fault-free load + O1 for every image; the full sweep once per distinct table
+                // Fault-free load + O1 for every pool image; the full +-40 s sweep once per
+                // distinct table. Expressed as a scenario so that a failure replays like any other.
                 let new_table = !seen_tables.contains(&ctx.images[idx].table);
                 if new_table {
                     seen_tables.push(ctx.images[idx].table.clone());
-                    if let Some(v) = sim.sweep_image(idx) {
-                        violations.push((0, v, None));
+                }
+                let sc = sweep_scenario(idx, new_table);
+                if let Some(v) = sim.execute(&sc).violation {
+                    sweep_found.push((idx as u64, v));
+                    if sweep_found.len() >= 4 {
                         break;
                     }
-                } else if let Some(v) = sim.sweep_load_only(idx) {
-                    violations.push((0, v, None));
-                    break;
                 }
             }
             distinct_tables_swept = seen_tables.len();
-            model_probes += sim.probe_stats.model_compared;
-            diff_probes += sim.probe_stats.differential_compared;
+            let c = sim.counters();
+            model_probes += c.get(C::o4_model_probes);
+            diff_probes += c.get(C::o4_differential_probes);
         }
 
         // The batch.
@@ -585,42 +648,88 @@ fn cmd_run(args: &Args) -> i32 {
             }
         }
 
-        // Minimise and record the lowest-index violation per oracle.
+        // Minimise and record the lowest-index violation per oracle. A violation counts only if it
+        // reproduces from its scenario alone in a FRESH PROCESS (the replay contract); if the code
+        // under test carries state from one run to the next (a process-wide cache, say), a run of
+        // the batch may fail only because of what ran before it on the same worker, and the next
+        // candidates are tried instead.
         found.sort_by_key(|(i, _)| *i);
+        // Sweep failures come first; their scenario is the sweep scenario of that image.
+        let n_sweep = sweep_found.len();
+        let found: Vec<(u64, Violation)> = sweep_found.into_iter().chain(found).collect();
         let mut seen_oracles: BTreeSet<String> = BTreeSet::new();
+        let mut unreproducible: Vec<(u64, Violation)> = Vec::new();
         let mut sim = new_sim(&ctx, &dirs, "shrink");
         sim.bypass = bypass;
-        for (i, v) in found {
-            if !seen_oracles.insert(v.oracle.clone()) {
+        let iso_path = dirs.root.join("isolated.json");
+        let mut tried = 0;
+        for (k, (i, v)) in found.into_iter().enumerate() {
+            if seen_oracles.contains(&v.oracle) {
                 continue;
             }
-            let sc = scenario::generate(prng::mix(base_seed, i), i, &ctx.infos);
-            // Confirm it replays before trusting it.
-            let again = sim.execute(&sc);
-            match &again.violation {
-                Some(v2) if v2.oracle == v.oracle => {}
-                _ => harness_error(&format!(
-                    "violation {} of run {i} did not reproduce on re-execution: nondeterminism in the harness",
-                    v.oracle
-                )),
+            tried += 1;
+            if tried > 40 {
+                break;
             }
-            let sh = shrink::shrink(&mut sim, &sc, &v, 4000);
-            let (s2, pool2) = extract(&sh.scenario, &ctx.images);
-            let rf = ReplayFile {
-                property: PROPERTY.into(),
-                oracle: sh.violation.oracle.clone(),
-                message: sh.violation.message.clone(),
-                base_seed,
-                run_index: i,
-                original_ops: sc.ops.len(),
-                shrink_executions: sh.executions,
-                pool: pool2,
-                scenario: s2,
+            let sc = if k < n_sweep {
+                let idx = i as usize;
+                sweep_scenario(idx, true)
+            } else {
+                scenario::generate(prng::mix(base_seed, i), i, &ctx.infos)
             };
-            let p = write_replay(&verif, &rf);
-            violations.push((i, sh.violation, Some(rf.scenario)));
-            let last = violations.last_mut().unwrap();
-            last.1.message = format!("{} [replay {}]", last.1.message, p.display());
+            let mk_rf = |s: &Scenario, v: &Violation, execs: usize| {
+                let (s2, pool2) = extract(s, &ctx.images);
+                ReplayFile {
+                    property: PROPERTY.into(),
+                    oracle: v.oracle.clone(),
+                    message: v.message.clone(),
+                    base_seed,
+                    run_index: i,
+                    original_ops: sc.ops.len(),
+                    shrink_executions: execs,
+                    pool: pool2,
+                    scenario: s2,
+                }
+            };
+            let mut isolated = |s: &Scenario| -> Option<Violation> {
+                let rf = mk_rf(s, &v, 0);
+                run_isolated(&rf, &iso_path)
+            };
+            // Fast path: minimise in this process on a fresh world, then confirm in a fresh process.
+            let mut result: Option<shrink::Shrunk> = None;
+            let again = sim.execute(&sc);
+            if matches!(&again.violation, Some(v2) if v2.oracle == v.oracle) {
+                let sh = shrink::shrink(&mut |s| sim.execute(s).violation, &sc, &v, 4000);
+                if matches!(isolated(&sh.scenario), Some(v3) if v3.oracle == v.oracle) {
+                    result = Some(sh);
+                }
+            }
+            // Slow path: every candidate executed in a fresh process.
+            if result.is_none() {
+                if matches!(isolated(&sc), Some(v3) if v3.oracle == v.oracle) {
+                    result = Some(shrink::shrink(&mut isolated, &sc, &v, 400));
+                }
+            }
+            match result {
+                Some(sh) => {
+                    seen_oracles.insert(v.oracle.clone());
+                    let rf = mk_rf(&sh.scenario, &sh.violation, sh.executions);
+                    let p = write_replay(&verif, &rf);
+                    violations.push((i, sh.violation, Some(rf.scenario)));
+                    let last = violations.last_mut().unwrap();
+                    last.1.message = format!("{} [replay {}]", last.1.message, p.display());
+                }
+                None => unreproducible.push((i, v)),
+            }
+        }
+        if violations.is_empty() && !unreproducible.is_empty() {
+            let (i, v) = &unreproducible[0];
+            harness_error(&format!(
+                "{} violation(s) observed inside the batch (first: run {i}, {} {}) did not reproduce from their scenario alone in a fresh process. The harness is deterministic on the unchanged tree, so the code under test most likely carries state across calls (see the premise audit: ./check audit). No replayable verdict can be given.",
+                unreproducible.len(),
+                v.oracle,
+                v.message
+            ));
         }
     }
 
